@@ -2,6 +2,7 @@ package main
 
 import (
 	"bytes"
+	"context"
 	"fmt"
 	"sort"
 	"strconv"
@@ -29,14 +30,15 @@ type bStep struct {
 func (s bStep) String() string { return s.Party + "." + s.Op }
 
 type c03Desc struct {
-	Ext    []string `json:"ext_subs"` // per external extension: subscription string e.g. "IS", "I", "S", ""
-	Int    []string `json:"int_subs"` // per internal extension: "I" or ""
-	Order  []string `json:"order"`
-	Dirs   int      `json:"dirs"`
-	Odd    bool     `json:"odd_names"`
-	ErrReport  string `json:"e0_reports_error_instead_of_next,omitempty"` // "init" | "exit": e0 reports an error where it would ask for next, and stays alive
-	HoldLaunch bool `json:"hold_launch,omitempty"` // the launch loop is paused after the first extension was started: it registers while the others do not exist yet
-	Gap    int      `json:"gap_ms_after_rt_next,omitempty"` // let the init sequence run on after the runtime's first next before the next step is issued
+	Ext        []string `json:"ext_subs"` // per external extension: subscription string e.g. "IS", "I", "S", ""
+	Int        []string `json:"int_subs"` // per internal extension: "I" or ""
+	Order      []string `json:"order"`
+	Dirs       int      `json:"dirs"`
+	Odd        bool     `json:"odd_names"`
+	ErrReport  string   `json:"e0_reports_error_instead_of_next,omitempty"` // "init" | "exit": e0 reports an error where it would ask for next, and stays alive
+	HoldLaunch bool     `json:"hold_launch,omitempty"`                      // the launch loop is paused after the first extension was started: it registers while the others do not exist yet
+	Helper     string   `json:"helper_registers_before,omitempty"`          // before this "eN.register" step a process started by an already launched extension registers under a name that is no extension file (an internal-style registration while the external phase is still open) and asks for next
+	Gap        int      `json:"gap_ms_after_rt_next,omitempty"`             // let the init sequence run on after the runtime's first next before the next step is issued
 }
 
 func subsOf(s string) []string {
@@ -139,6 +141,9 @@ func genC03(tier string, seed int64) []Case {
 		if d.ErrReport != "" {
 			id += "/e0-" + d.ErrReport + "error"
 		}
+		if d.Helper != "" {
+			id += "/helper-before-" + d.Helper
+		}
 		if seen[id] {
 			return
 		}
@@ -178,6 +183,17 @@ func genC03(tier string, seed int64) []Case {
 			if cf.ne >= 2 && d.Order[0] == "e0.register" && oi%4 == 0 {
 				h := d
 				h.Odd, h.HoldLaunch = false, true
+				add(h)
+			}
+			if cf.ne >= 2 && oi%5 == 2 {
+				// the helper registers before the LAST external registration of this order
+				h := d
+				h.Odd = false
+				for _, st := range h.Order {
+					if strings.HasPrefix(st, "e") && strings.HasSuffix(st, ".register") {
+						h.Helper = st
+					}
+				}
 				add(h)
 			}
 			if cf.ne >= 1 && oi%6 == 1 {
@@ -235,6 +251,7 @@ func genC03(tier string, seed int64) []Case {
 		}
 		add(d)
 	}
+	cases = append(cases, genC03Regen(tier, seed)...)
 	return cases
 }
 
@@ -304,6 +321,8 @@ func runC03(c *Ctx, d c03Desc) {
 	regOK := map[string]bool{}
 	firstNextCall := map[string]int64{}
 	var inv *vh.Invocation
+	var helperNext *vh.Async
+	helperOK := false
 	getExt := func(e int) *vh.Party {
 		k := fmt.Sprintf("e%d", e)
 		if pt, ok := parties[k]; ok {
@@ -354,6 +373,17 @@ func runC03(c *Ctx, d c03Desc) {
 			}
 			c.Check(launched == 1, "registered_during_launch", "C03/harness-hold-launch", "launch loop was not paused after the first extension", launched)
 			hk.Release("exec.beforeExitChannel")
+		}
+		if d.Helper != "" && d.Helper == stepName && helperNext == nil {
+			helper := vh.NewParty("ext:helper", w.E.Addr, w.E.Log, context.Background())
+			defer helper.Close()
+			r := helper.Register("ext-helper", nil, "")
+			c.Check(r.Status == 200, "register_accepted", fmt.Sprintf("C03/helper-register-refused/%d/%s", r.Status, r.Etype), "an internal-style registration while the external extensions were still registering was refused", stepName)
+			if r.Status == 200 {
+				helperOK = true
+				helperNext = vh.Go(func() *vh.Resp { return helper.ExtNext() })
+				vh.Settle(helperNext, func() bool { return w.E.ExtState("ext-helper") == "Ready" }, 3*time.Second)
+			}
 		}
 		dot := strings.Index(stepName, ".")
 		party, op := stepName[:dot], stepName[dot+1:]
@@ -525,6 +555,11 @@ func runC03(c *Ctx, d c03Desc) {
 			nInt++
 		}
 	}
+	if helperOK {
+		nInt++
+		time.Sleep(3 * time.Millisecond)
+		c.Check(!helperNext.Done(), "non_subscriber_not_served", "C03/non-subscriber-served/helper", "the helper registration (no subscription) was released by the first invocation", nil)
+	}
 	c.Check(len(firstNextCall) == 1+ne+nInt, "arrivals_counted", "C03/harness-arrivals", "harness did not record all arrivals", len(firstNextCall))
 
 	// (a) launched multiset == non-directory entries, names, no directory launched
@@ -616,7 +651,7 @@ func runC03(c *Ctx, d c03Desc) {
 
 	lifecycleOracle(c, w)
 	c.SetInterleaving(strings.Join(d.Order, ">"))
-	c.SetTrace(fmt.Sprintf("e%v i%v d%d h%v ", d.Ext, d.Int, d.Dirs, d.HoldLaunch)+strings.Join(d.Order, ">"), true)
+	c.SetTrace(fmt.Sprintf("e%v i%v d%d h%v helper@%s ", d.Ext, d.Int, d.Dirs, d.HoldLaunch, d.Helper)+strings.Join(d.Order, ">"), true)
 	if c.WantSample || c.Violated() {
 		c.SetSample(sampleLog(w, 100))
 	}
